@@ -1,8 +1,10 @@
 (** C01 — under multiplexing every RPC gets exactly its own response.
-    Model/Registry.v: interleaving semantics of registry.go + fAdapterTransport.Request; every
-    theorem quantifies over ALL event sequences the model accepts: any number of callers, any
-    interleaving of caller / send-goroutine / clock / reader steps, any arrival sequence
-    (permutations, duplicates, late frames, op ids never issued). *)
+    Model/Registry.v: interleaving semantics of registry.go + Request of the adapter transport
+    ([KAdapter]) and of the NATS transport ([KNats], with fNatsTransport.handler's status-503 path);
+    every theorem quantifies over ALL event sequences the model accepts: any number of callers, any
+    interleaving of caller / send-goroutine / clock / environment / reader steps, any arrival
+    sequence (permutations, duplicates, late frames, op ids never issued, 503 status messages).
+    Theorems stated with [tk] hold for both transports; [_nats] ones are specific to NATS. *)
 From Coq Require Import ZArith List.
 From FV Require Import Model.Registry Proofs.RegistryProofs.
 From FV Require Gen.CtxLockSites Model.LockPaths.
@@ -10,45 +12,69 @@ Import ListNotations.
 Open Scope Z_scope.
 
 (** a request completes successfully only with a frame carrying its own op id *)
-Theorem c01_own_response : forall b ops dl n evs s i f,
-  run b (init ops dl n) evs = Some s -> c_phase (callers s i) = CDone (OOk f) -> f_op f = ops i.
-Proof. exact own_response. Qed.
+Theorem c01_own_response : forall tk b ops dl n evs s i f,
+  run tk b (init ops dl n) evs = Some s -> c_phase (callers s i) = CDone (OOk f) -> f_op f = ops i.
+Proof. intros tk b ops dl n. exact (own_response tk b ops dl (fun _ => DNormal) n). Qed.
 Print Assumptions c01_own_response.
+
+(** ... more precisely, on either transport and for any request data (normal, empty, oversize): the
+    returned frame carries the request's op id, is one of the frames that reached dispatch during
+    the run (nothing is invented) and - on NATS - is not the empty "service not available" frame *)
+Theorem c01_own_response_nats : forall tk b ops dl dk n evs s i f,
+  run tk b (initd ops dl dk n) evs = Some s -> c_phase (callers s i) = CDone (OOk f) ->
+  f_op f = ops i /\ In f (arrivals evs) /\ (tk = KNats -> is_na f = false).
+Proof. exact own_response_arrived. Qed.
+Print Assumptions c01_own_response_nats.
 
 (** a frame whose op id is not registered (never issued; completed or timed out and unregistered)
     leaves the whole state unchanged *)
-Theorem c01_unregistered_frames_inert : forall b s f,
-  rd s = RIdle -> reg_lookup (reg s) (f_op f) = None -> step b s (EArrive f) = Some s.
+Theorem c01_unregistered_frames_inert : forall tk b s f,
+  rd s = RIdle -> reg_lookup (reg s) (f_op f) = None -> step tk b s (EArrive f) = Some s.
 Proof. exact unregistered_arrival_inert. Qed.
 Print Assumptions c01_unregistered_frames_inert.
+
+(** NATS: so does a status 503 message for an op id that is not registered *)
+Theorem c01_unregistered_503_inert_nats : forall b s op,
+  rd s = RIdle -> reg_lookup (reg s) op = None -> step KNats b s (EArrive503 op) = Some s.
+Proof. exact unregistered_503_inert. Qed.
+Print Assumptions c01_unregistered_503_inert_nats.
 
 (** a frame (duplicate, late) for a request that has already left its select - completed, timed out
     or failed, but not yet unregistered - changes nobody's outcome: every continuation reaches the
     same phases for every caller with or without it *)
-Theorem c01_late_frames_change_no_outcome : forall s f j evs t,
+Theorem c01_late_frames_change_no_outcome : forall tk s f j evs t,
   rd s = RIdle -> reg_lookup (reg s) (f_op f) = Some j -> past_select (c_phase (callers s j)) ->
-  run false s (EArrive f :: EDeliver :: evs) = Some t ->
-  exists t', run false s evs = Some t' /\ forall i, c_phase (callers t i) = c_phase (callers t' i).
+  run tk false s (EArrive f :: EDeliver :: evs) = Some t ->
+  exists t', run tk false s evs = Some t' /\ forall i, c_phase (callers t i) = c_phase (callers t' i).
 Proof. exact late_frame_changes_no_outcome. Qed.
 Print Assumptions c01_late_frames_change_no_outcome.
 
+(** NATS: the same for a late or duplicate status 503 message *)
+Theorem c01_late_503_changes_no_outcome_nats : forall s op j evs t,
+  rd s = RIdle -> reg_lookup (reg s) op = Some j -> past_select (c_phase (callers s j)) ->
+  run KNats false s (EArrive503 op :: EDeliver :: evs) = Some t ->
+  exists t', run KNats false s evs = Some t' /\ forall i, c_phase (callers t i) = c_phase (callers t' i).
+Proof. exact late_503_changes_no_outcome. Qed.
+Print Assumptions c01_late_503_changes_no_outcome_nats.
+
 (** a request completes at most once: its outcome never changes afterwards, whatever arrives *)
-Theorem c01_at_most_one_completion : forall b evs s s' i o,
-  run b s evs = Some s' -> c_phase (callers s i) = CDone o -> c_phase (callers s' i) = CDone o.
+Theorem c01_at_most_one_completion : forall tk b evs s s' i o,
+  run tk b s evs = Some s' -> c_phase (callers s i) = CDone o -> c_phase (callers s' i) = CDone o.
 Proof. exact run_done_stable. Qed.
 Print Assumptions c01_at_most_one_completion.
 
-(** when every caller has returned the registry is empty *)
-Theorem c01_registry_empties : forall b ops dl n evs s,
-  run b (init ops dl n) evs = Some s ->
+(** when every caller has returned the registry is empty (either transport, any request data) *)
+Theorem c01_registry_empties : forall tk b ops dl dk n evs s,
+  run tk b (initd ops dl dk n) evs = Some s ->
   (forall i, (i < n)%nat -> exists o, c_phase (callers s i) = CDone o) -> reg s = [].
 Proof. exact registry_empties. Qed.
 Print Assumptions c01_registry_empties.
 
-(** with pairwise distinct op ids (C17) a request in flight is registered under its own op id and
-    nobody else's frame can reach its channel; one that is not in flight is not registered *)
-Theorem c01_registered_iff_in_flight : forall b ops dl n evs s,
-  distinct_ops ops n -> run b (init ops dl n) evs = Some s -> reg_ok ops n s.
+(** with pairwise distinct op ids (C17) a request in flight (whose op id is well-formed, i.e. not
+    negative in the model) is registered under its own op id and nobody else's frame can reach its
+    channel; one that is not in flight, or whose op id is malformed, is not registered *)
+Theorem c01_registered_iff_in_flight : forall tk b ops dl dk n evs s,
+  distinct_ops ops n -> run tk b (initd ops dl dk n) evs = Some s -> reg_ok ops n s.
 Proof. exact run_reg_ok. Qed.
 Print Assumptions c01_registered_iff_in_flight.
 
@@ -60,6 +86,49 @@ Theorem c01_registry_guarded : LockPaths.all_guarded CtxLockSites.registry_metho
 Proof. vm_compute. reflexivity. Qed.
 Print Assumptions c01_registry_guarded.
 
+(** NATS, ANY op ids (two concurrent requests may share one FContext): Register's error is returned,
+    so a request in flight always owns the registration of its op id ... *)
+Theorem c01_in_flight_owns_registration_nats : forall b ops dl dk n evs s i,
+  run KNats b (initd ops dl dk n) evs = Some s -> (i < n)%nat ->
+  in_flight (c_phase (callers s i)) -> reg_lookup (reg s) (ops i) = Some i.
+Proof. exact nats_in_flight_owns. Qed.
+Print Assumptions c01_in_flight_owns_registration_nats.
+
+(** ... and the request that meets the registration of another one returns the Register error having
+    changed nothing: registry, reader and every other request are untouched *)
+Theorem c01_register_error_inert_nats : forall b s i j,
+  (i < ncallers s)%nat -> c_phase (callers s i) = CNew -> c_data (callers s i) <> DEmpty ->
+  reg_lookup (reg s) (c_op (callers s i)) = Some j ->
+  exists s', step KNats b s (ERegister i) = Some s' /\ c_phase (callers s' i) = CDone ORegErr
+    /\ reg s' = reg s /\ rd s' = rd s /\ (forall k, k <> i -> callers s' k = callers s k).
+Proof. exact nats_register_error_inert. Qed.
+Print Assumptions c01_register_error_inert_nats.
+
+(** NATS: a status 503 for one op id affects only the request registered under it: lookup and
+    hand-over leave the registry, the phase of every request and every OTHER request's channel as
+    they were; the target's channel either receives the empty frame or (full) stays as it is *)
+Theorem c01_503_affects_only_its_request_nats : forall s op j s',
+  rd s = RIdle -> reg_lookup (reg s) op = Some j -> run KNats false s [EArrive503 op; EDeliver] = Some s' ->
+  reg s' = reg s /\ rd s' = RIdle /\ ncallers s' = ncallers s /\
+  (forall k, k <> j -> callers s' k = callers s k) /\
+  c_phase (callers s' j) = c_phase (callers s j) /\
+  (c_chan (callers s' j) = c_chan (callers s j) \/ c_chan (callers s' j) = [na_frame op]).
+Proof. exact nats_503_local. Qed.
+Print Assumptions c01_503_affects_only_its_request_nats.
+
+(** NATS: a request reports SERVICE_NOT_AVAILABLE only if a 503 for ITS op id reached dispatch during
+    the run; the adapter transport never reports it *)
+Theorem c01_not_available_only_after_own_503_nats : forall b ops dl dk n evs s i,
+  run KNats b (initd ops dl dk n) evs = Some s -> c_phase (callers s i) = CDone ONotAvail ->
+  In (na_frame (ops i)) (arrivals evs).
+Proof. exact not_avail_only_own_503. Qed.
+Print Assumptions c01_not_available_only_after_own_503_nats.
+
+Theorem c01_adapter_never_reports_not_available : forall b ops dl dk n evs s i,
+  run KAdapter b (initd ops dl dk n) evs = Some s -> c_phase (callers s i) <> CDone ONotAvail.
+Proof. exact adapter_never_not_avail. Qed.
+Print Assumptions c01_adapter_never_reports_not_available.
+
 (** non-vacuity: three callers; responses permuted, one duplicated, one for an unknown op id, one late *)
 Example c01_nonvacuous :
   let ops := fun i => match i with 0%nat => 11 | 1%nat => 12 | _ => 13 end in
@@ -70,10 +139,55 @@ Example c01_nonvacuous :
               ETake 2 TResult; ETake 0 TResult; EUnregister 0; ETake 1 TTimeout; EUnregister 1;
               EArrive (fr 12 5);                               (* late: caller 1 is gone *)
               EUnregister 2] in
-  match run false (init ops (fun _ => true) 3) evs with
+  match run KAdapter false (init ops (fun _ => true) 3) evs with
   | Some s => c_phase (callers s 0) = CDone (OOk (fr 11 3))
               /\ c_phase (callers s 1) = CDone OTimedOut
               /\ c_phase (callers s 2) = CDone (OOk (fr 13 1)) /\ reg s = []
+  | None => False
+  end.
+Proof. vm_compute. repeat split. Qed.
+
+(** non-vacuity, NATS: six callers. 0 and 1 share an op id (1 gets the Register error while 0 is in
+    flight); 2 gets a 503 for its op id; 3 sends an empty (4-byte) frame; 4 is oversize and a frame for
+    its op id arrives while it is registered; 5 finds the transport closed. Every outcome but publish
+    error occurs, the 503 for caller 2 leaves caller 0 alone, and the registry ends empty. *)
+Example c01_nonvacuous_nats :
+  let ops := fun i => match i with 0%nat => 11 | 1%nat => 11 | 2%nat => 12 | 3%nat => 13 | 4%nat => 14 | _ => 15 end in
+  let dk := fun i => match i with 3%nat => DEmpty | 4%nat => DTooLarge | _ => DNormal end in
+  let fr := fun o t => {| f_op := o; f_tag := t |} in
+  let evs := [ERegister 0; ERegister 1; ERegister 2; ERegister 3; ERegister 4; ENotOpen 5;
+              ERelease 0; ERelease 2;
+              EArrive (fr 14 7); EDeliver;                     (* lands in the oversize caller's channel *)
+              ERelease 4; EUnregister 4;
+              EArrive503 12; EDeliver; EArrive503 12; EDeliver;  (* second 503: dropped *)
+              EArrive503 77;                                   (* 503 for an unknown op id *)
+              ETake 2 TResult; EUnregister 2;
+              EArrive (fr 11 9); EDeliver; ETake 0 TResult; EUnregister 0] in
+  match run KNats false (initd ops (fun _ => false) dk 6) evs with
+  | Some s => c_phase (callers s 0) = CDone (OOk (fr 11 9))
+              /\ c_phase (callers s 1) = CDone ORegErr
+              /\ c_phase (callers s 2) = CDone ONotAvail
+              /\ c_phase (callers s 3) = CDone OEmpty
+              /\ c_phase (callers s 4) = CDone OTooLarge
+              /\ c_phase (callers s 5) = CDone ONotOpen /\ reg s = []
+  | None => False
+  end.
+Proof. vm_compute. repeat split. Qed.
+
+(** observation (outside the property's quantifier: two CONCURRENT requests sharing one FContext): the
+    adapter transport ignores Register's error, so the second request's deferred Unregister deletes
+    the first one's registration and the first one's response is dropped as "unregistered"; on NATS
+    the second request is refused and the first one completes *)
+Example c01_shared_fcontext_adapter_vs_nats :
+  let fr := {| f_op := 11; f_tag := 1 |} in
+  match run KAdapter false (init (fun _ => 11) (fun _ => true) 2)
+            [ERegister 0; ERegister 1; ERelease 0; ERelease 1; ETake 1 TTimeout; EUnregister 1; EArrive fr] with
+  | Some s => rd s = RIdle /\ c_chan (callers s 0) = [] /\ c_phase (callers s 0) = CSelect /\ reg s = []
+  | None => False
+  end /\
+  match run KNats false (init (fun _ => 11) (fun _ => true) 2)
+            [ERegister 0; ERegister 1; ERelease 0; EArrive fr; EDeliver; ETake 0 TResult; EUnregister 0] with
+  | Some s => c_phase (callers s 0) = CDone (OOk fr) /\ c_phase (callers s 1) = CDone ORegErr /\ reg s = []
   | None => False
   end.
 Proof. vm_compute. repeat split. Qed.
